@@ -654,3 +654,160 @@ def det_metric(name, pairs, agg="mean"):
     if name == "derror":
         return float(sum(abs(a - b) for a, b in zip(sorted(O), sorted(Fc))) / n)
     raise KeyError(name)
+
+
+# --------------------------------------------------------------------------------------
+# 2x2 contingency-table scores (C06). a hits, b false alarms, c misses, d correct rejections.
+# --------------------------------------------------------------------------------------
+CONT_METRICS = ["a", "b", "c", "d", "n", "ets", "threat", "pc", "kss", "hss", "hit", "miss", "fa", "far", "biasfreq",
+                "baserate", "fcstrate", "or", "lor", "yulesq", "dscore", "edi", "sedi", "eds", "seds"]
+
+
+def cont_metric(name, a, b, c, d):
+    """Textbook value from the four counts; None where the formula is undefined."""
+    a, b, c, d = Fraction(a), Fraction(b), Fraction(c), Fraction(d)
+    n = a + b + c + d
+    if n == 0:
+        return None
+
+    def div(x, y):
+        return None if y == 0 else float(Fraction(x) / Fraction(y))
+
+    def ln(x):
+        return math.log(float(x))
+
+    if name == "a":
+        return div(a, n)
+    if name == "b":
+        return div(b, n)
+    if name == "c":
+        return div(c, n)
+    if name == "d":
+        return div(d, n)
+    if name == "n":
+        return float(n)
+    if name == "ets":
+        ar = (a + b) * (a + c) / n
+        return div(a - ar, a + b + c - ar)
+    if name == "threat":
+        return div(a, a + b + c)
+    if name == "pc":
+        return div(a + d, n)
+    if name == "kss":
+        return div(a * d - b * c, (a + c) * (b + d))
+    if name == "hss":
+        return div(2 * (a * d - b * c), (a + c) * (c + d) + (a + b) * (b + d))
+    if name == "hit":
+        return div(a, a + c)
+    if name == "miss":
+        return div(c, a + c)
+    if name == "fa":
+        return div(b, b + d)
+    if name == "far":
+        return div(b, a + b)
+    if name == "biasfreq":
+        return div(a + b, a + c)
+    if name == "baserate":
+        return div(a + c, n)
+    if name == "fcstrate":
+        return div(a + b, n)
+    if name == "or":
+        return div(a * d, b * c)
+    if name == "lor":
+        if a * d == 0 or b * c == 0:
+            return None
+        return ln(a * d / (b * c))
+    if name == "yulesq":
+        return div(a * d - b * c, a * d + b * c)
+    if name == "dscore":
+        return div(a * d + Fraction(1, 2) * (a * b + c * d), (a + c) * (b + d))
+    if name in ("edi", "sedi"):
+        if b + d == 0 or a + c == 0:
+            return None
+        Fr = b / (b + d)
+        H = a / (a + c)
+        if name == "edi":
+            if Fr == 0 or H == 0:
+                return None
+            den = ln(Fr) + ln(H)
+            return None if den == 0 else (ln(Fr) - ln(H)) / den
+        if Fr in (0, 1) or H in (0, 1):
+            return None
+        den = ln(Fr) + ln(H) + ln(1 - Fr) + ln(1 - H)
+        return None if den == 0 else (ln(Fr) - ln(H) - ln(1 - Fr) + ln(1 - H)) / den
+    if name == "eds":
+        # 2 ln((a+c)/n) / ln(a/n) - 1
+        if a == 0 or a + c == 0:
+            return None
+        den = ln(a / n)
+        return None if den == 0 else 2 * ln((a + c) / n) / den - 1
+    if name == "seds":
+        # (ln((a+b)/n) + ln((a+c)/n)) / ln(a/n) - 1
+        if a == 0 or a + b == 0 or a + c == 0:
+            return None
+        den = ln(a / n)
+        return None if den == 0 else (ln((a + b) / n) + ln((a + c) / n)) / den - 1
+    raise KeyError(name)
+
+
+# --------------------------------------------------------------------------------------
+# -T pre-aggregation (C15): trailing window (x - h, x] along lead time (hours) or time (seconds)
+# --------------------------------------------------------------------------------------
+def window_aggregate(agg, vals):
+    """Aggregate of a window given as a list with None for missing. A missing member makes every
+    statistic but the count missing."""
+    if agg == "count":
+        return float(sum(1 for v in vals if v is not None))
+    if agg in ("change", "abschange"):
+        if vals[0] is None or vals[-1] is None:
+            return None
+        return aggregate(agg, [vals[0], vals[-1]])
+    if any(v is None for v in vals):
+        return None
+    r = aggregate(agg, vals)
+    return None if (r is None or (isinstance(r, float) and r != r)) else r
+
+
+def preaggregate_spec(spec, h, axis, agg):
+    """Spec in which obs, fcst and every ensemble member of every input are replaced by the aggregate
+    of the same series over the trailing window (x-h, x] along `axis` ('leadtime' in hours, 'time' in
+    hours of initialisation time). Stored probabilities/quantiles/pit are dropped (they are not
+    what -T is documented to transform)."""
+    import copy
+    out = copy.deepcopy(spec)
+    for d in out["inputs"] + ([out["clim"]] if out.get("clim") else []):
+        times = [spec["times"][i] for i in d["ti"]]
+        leads = [spec["leadtimes"][i] for i in d["li"]]
+        nT, nL, nS = len(times), len(leads), len(d["si"])
+
+        def win(a, b):
+            if axis == "leadtime":
+                return [(a, j) for j in range(nL) if leads[b] - h < leads[j] <= leads[b]]
+            return [(j, b) for j in range(nT) if times[a] - h * 3600 < times[j] <= times[a]]
+
+        def conv(nested, member=None):
+            res = []
+            for a in range(nT):
+                pa = []
+                for b in range(nL):
+                    pb = []
+                    for c in range(nS):
+                        w = win(a, b)
+                        if member is None:
+                            vals = [nested[x][y][c] for x, y in w]
+                        else:
+                            vals = [nested[x][y][c][member] for x, y in w]
+                        pb.append(window_aggregate(agg, vals))
+                    pa.append(pb)
+                res.append(pa)
+            return res
+        for name in ("obs", "fcst"):
+            if d.get(name) is not None:
+                d[name] = conv(d[name])
+        if d.get("ens") is not None:
+            M = d["members"]
+            per = [conv(d["ens"], m) for m in range(M)]
+            d["ens"] = [[[[per[m][a][b][c] for m in range(M)] for c in range(nS)] for b in range(nL)] for a in range(nT)]
+        for name in ("pit", "cdf", "qs", "thresholds", "quantiles", "other"):
+            d.pop(name, None)
+    return out
